@@ -5,6 +5,7 @@
 # License: http://snmplabs.com/pysmi/license.html
 #
 import sys
+from keyword import iskeyword
 import re
 from time import strptime, strftime
 try:
@@ -76,6 +77,9 @@ class IntermediateCodeGen(AbstractCodeGen):
 
     @staticmethod
     def transOpers(symbol):
+        if iskeyword(symbol):
+            symbol = 'pysmi_' + symbol
+
         return symbol.replace('-', '_')
 
     def prepData(self, pdata):
